@@ -40,7 +40,8 @@ def framedBodyIO (c : Codec) (x : ReaderIO) (dstLen : Nat) : ReaderIO × Chunk :
         | .ok =>
           let (r', ch) := decodeInto c { x.r with rest := s2.data, nbytes := x.r.nbytes + 4 + deN l } input dstLen
           (⟨r', s2.script⟩, ch)
-        | _ => (⟨{ x.r with rest := s2.data, nbytes := x.r.nbytes + 4 + input.length }, s2.script⟩, .err)
+        | .eof => (⟨{ x.r with rest := s2.data, nbytes := x.r.nbytes + 4 }, s2.script⟩, .eof)   -- io.EOF passed on: a clean end
+        | .unexpected => (⟨{ x.r with rest := s2.data, nbytes := x.r.nbytes + 4 + input.length }, s2.script⟩, .err)
 
 def unframedBodyIO (c : Codec) (x : ReaderIO) (pre : Nat) (dstLen : Nat) : ReaderIO × Chunk :=
   match readToEOF (fuelFor x.src) x.src blockCap (x.r.header.take pre) with
